@@ -394,6 +394,8 @@ def evaluate(ctx: Ctx, scs: List[dict], procs: int = 14) -> None:
         wk.check_runtime_constants(ctx, flags)
     obs = wk.run_disciplined(ctx, scs, procs)       # timing discipline: see worker.run_disciplined
     model = ctx.model([wk.model_request(sc, "c15.run", flags) for sc in scs])
+    consts_r = ctx.model([{"cmd": "c14.runtimes"}])
+    consts = consts_r[0].get("ok") if consts_r else None
 
     def judge(f: Any, i: int, sc: dict, o: dict) -> None:
         """one run of one scenario: the property monitors and the model comparison, collected in `f`"""
@@ -403,6 +405,15 @@ def evaluate(ctx: Ctx, scs: List[dict], procs: int = 14) -> None:
             # a handler held in a transport write that the peer does not drain: the worker model has no such state (its
             # handlers end when they are cancelled) - the scenario is judged by the monitors only (known finding F113)
             f.count("not_compared", "blocked_write_outside_model")
+            # ... but the one fact the small model HC.Worker.BlockedWrite rests on is measured here: does the handler of a blocked
+            # write outlive its cancellation (Runtime.blockedWriteOutlivesCancel, extracted from both tcp_server.py)?
+            if consts is not None:
+                T_ = trigger_instant(sc, iv, o)
+                outlived = iv["outcome"] == "stuck" or (iv["return_s"] is not None and T_ is not None and iv["return_s"] > T_ + G + S + SLACK)
+                want = consts[sc["worker"]].get("blockedWriteOutlivesCancel")
+                f.disagreements_checked += 1
+                if want is not None and bool(want) != outlived:
+                    f.disagree("runtime constants: blockedWriteOutlivesCancel", {"worker": sc["worker"], "kinds": sc["kinds"]}, want, outlived)
             return
         if model is not None:
             r = model[i]
